@@ -251,13 +251,11 @@ Definition string_to_array_index (p : str) : Z :=
               else if list_eqb Z.eqb (int_text i) p then i else -1     (* strconv.FormatInt(index, 10) != name *)
   | None => -1
   end.
-Definition m_index (s : gostr) (p : str) : res :=
-  let i := string_to_array_index p in
-  if i <? 0 then VUndef else
-  match string_at s i with
-  | Some c => VStr (enc16 (rune_string c))
-  | None => VUndef
-  end.
+(* stringGetOwnProperty after 66edf49: the index is tested against the length, not the rune *)
+Definition m_index_at (s : gostr) (i : Z) : res :=
+  let u := enc16 s in
+  if (0 <=? i) && (i <? zlen u) then VStr (enc16 (rune_string (unit_at u i))) else VUndef.
+Definition m_index (s : gostr) (p : str) : res := m_index_at s (string_to_array_index p).
 
 Definition m_localeCompare (a b : str) : Z := cmp_list (enc8 (dec16 a)) (enc8 (dec16 b)).
 
